@@ -249,7 +249,7 @@ Qed.
 
 (* ------------------------------------------------------------------ MODELLED Response.Write: the codec law *)
 Definition go_trailer_fields (meth : str) (r : resp) : list (str * str) :=
-  if g_te (go_state meth r) then header_fields [] (r_trailer r) else [].
+  if g_te (go_state meth r) then header_fields [] (final_trailer r) else [].
 
 (* what the client must see of a response written by Response.Write *)
 Definition go_obs (meth : str) (r : resp) : obs :=
@@ -293,7 +293,7 @@ Lemma go_body_concat_te meth r :
   g_head (go_state meth r) = false -> g_te (go_state meth r) = true ->
   concat (go_body_writes meth r) =
   concat (map chunk_bytes (reads_of r)) ++ (b "0" ++ crlf) ++
-  concat (map field_bytes (header_fields [] (r_trailer r))) ++ crlf.
+  concat (map field_bytes (header_fields [] (final_trailer r))) ++ crlf.
 Proof.
   intros Hh Ht. unfold go_body_writes. cbv zeta. rewrite Hh, Ht.
   rewrite !concat_app, chunks_concat. unfold header_writes. rewrite flat_field_writes.
@@ -344,7 +344,7 @@ Proof.
     rewrite Hs, Ht. cbn [negb andb].
     change (final_chunked [b "chunked"]) with true. cbv iota.
     rewrite (go_body_concat_te meth r Hh Ht), <- !app_assoc.
-    rewrite (dechunk_ser (reads_of r) _ [] (header_fields [] (r_trailer r)) rest (filter_nonempty_all _));
+    rewrite (dechunk_ser (reads_of r) _ [] (header_fields [] (final_trailer r)) rest (filter_nonempty_all _));
       [| rewrite !app_length; pose proof (chunks_len (reads_of r)); lia | apply header_fields_clean].
     unfold go_obs, go_trailer_fields. rewrite Ht. reflexivity.
   - apply andb_true_iff in Hd as [Ht Hd]. apply negb_true_iff in Ht. rewrite Ht, andb_false_r.
